@@ -5,6 +5,7 @@ import RtenVerif.Model.BinaryDispatch
 import RtenVerif.Model.ReduceDispatch
 import RtenVerif.Model.BlockedCopy
 import RtenVerif.Model.Im2Col
+import RtenVerif.Model.InPlaceView
 import RtenVerif.Generated.RegistryOps
 
 namespace RtenVerif.Driver.C14
@@ -89,6 +90,45 @@ def handleTi (ws : List String) : String :=
       | .error .panic => "panic"
     | _, _ => "bad-request"
   | _, _ => "bad-request"
+
+open RtenVerif.Layout in
+/-- `tir <op> a=<view> b=<view> specs=<idx>:<perm>;…`: `TransformInputs(op)::run_in_place` with
+operand 0 owned (so `ctx.inputs() = [None, b]`): the masked transform loop, then the inner
+operator's `run_in_place`. -/
+def handleTir (op : String) (ws : List String) : String :=
+  match RtenVerif.InPlace.binFn op, (field "a" ws).bind parseView, (field "b" ws).bind parseView, field "specs" ws with
+  | some f, some a, some b, some ps =>
+    let specs : Option (List PermuteSpec) := (ps.splitOn ";").mapM (fun p =>
+      match p.splitOn ":" with
+      | [i, q] => do
+        let idx ← i.toNat?
+        if q == "r" then pure ⟨idx, none⟩
+        else if q == "e" then pure ⟨idx, some []⟩
+        else (parseNatList "," q).map (fun l => ⟨idx, some l⟩)
+      | _ => none)
+    match specs with
+    | none => "bad-request"
+    | some specs =>
+      let mk (k : Nat) (v : View) : TState :=
+        let n := v.base + (v.dims.map (fun d => (d.1 - 1) * d.2)).sum + 3
+        ⟨(List.range n).map (fun i => (i + 1) * 100 ^ k), v⟩
+      let ta := mk 0 a
+      let tb := mk 1 b
+      -- ctx.inputs(): position 0 is the in-place input → None
+      match applyTransformsOpt specs [none, some tb] with
+      | .error .err => "err"
+      | .error .panic => "panic"
+      | .ok [none, some tb'] =>
+        let sa : Nat → Int := fun i => ((ta.store.getD i 0 : Nat) : Int)
+        let sb : Nat → Int := fun i => ((tb'.store.getD i 0 : Nat) : Int)
+        if RtenVerif.InPlace.canRunInPlace (sizes a.dims) (sizes tb'.view.dims) then
+          showTens (tensOf a (binaryOpInPlaceView f a sa tb'.view sb))
+        else
+          match binaryOp f a sa tb'.view sb with
+          | some t => showTens t
+          | none => "err"
+      | .ok _ => "bad-request"
+  | _, _, _, _ => "bad-request"
 
 open RtenVerif.Layout in
 /-- `tip ips=<list> idx=<list>`: in-place inputs offered by TransformInputs wrappers. -/
@@ -178,6 +218,7 @@ def handle (line : String) : String :=
   | "uop" :: ws => handleUop ws
   | "ti" :: ws => handleTi ws
   | "tip" :: ws => handleTip ws
+  | "tir" :: op :: ws => handleTir op ws
   | "red" :: ws => handleRed ws
   | "cp" :: ws => handleCp ws
   | "im2col" :: ws => handleIm2col ws
